@@ -33,6 +33,12 @@ Proof.
     rewrite nth_repeat. apply H. exact Hk.
 Qed.
 
+Lemma combine_map_l_aux {A B C} (f : A -> B) (l : list A) (l' : list C) :
+  combine (map f l) l' = map (fun x => (f (fst x), snd x)) (combine l l').
+Proof.
+  revert l'. induction l as [|a l IH]; intros [|c l']; cbn; try reflexivity. rewrite IH. reflexivity.
+Qed.
+
 Section BP.
 Variables (V F : Type) (interp : F -> list V -> V) (dflt : V).
 Variable g : graph F.
@@ -403,6 +409,24 @@ Proof.
     intros [|j] k' Hk.
     + cbn in Hk. injection Hk as <-. rewrite Nat.add_0_r. cbn [nth]. rewrite H0. exact K.
     + cbn in Hk. rewrite Nat.add_succ_r. cbn [nth]. exact (Hs j k' Hk).
+Qed.
+
+(* the error codes the kernels report have no influence on the states: the loop with infos computes exactly the
+   states of [seq_from] (so kernel j+1 receives what kernel j returned whatever code kernel j reported), and
+   records the reported codes in order *)
+Theorem seq_from_c_states (I : impl V F) internal orc codes ks : forall i st,
+  seq_from_c I g internal orc codes i ks st =
+    match seq_from I g internal orc i ks st with
+    | None => None
+    | Some (stf, tr) => Some (stf, tr, map (fun js => codes (i + fst js) (snd js)) (combine (seq 0 (length tr)) tr))
+    end.
+Proof.
+  induction ks as [|k r IH]; intros i st; cbn [seq_from_c seq_from]; [reflexivity|].
+  destruct (ktransition I g (internal i) k (orc i st) st) as [st1|]; [|reflexivity].
+  rewrite IH. destruct (seq_from I g internal orc (S i) r st1) as [[stf tr]|]; [|reflexivity].
+  cbn [length seq combine map fst snd]. rewrite Nat.add_0_r. f_equal. f_equal. f_equal.
+  rewrite <- seq_shift, combine_map_l_aux. rewrite map_map. apply map_ext. intros [j s]. cbn [fst snd].
+  f_equal. lia.
 Qed.
 
 Definition keys_ok (ks : list kernel) : Prop :=
